@@ -18,6 +18,11 @@ except ImportError:      # the add-on part is optional
 PID = "C04"
 
 
+# builder-threads fixed the sampling in /verif 61794f3 (VmSize after every allocating call, baseline =
+# first half of the repetitions; seeds 1..5 clean): the part's SteadyState reports are verdicts again
+DEMOTE_PART_STEADYSTATE = False
+
+
 class _PartProxy:
     """What the add-on part (global allocator probe) sees instead of the Check object: everything is
     forwarded, except that its SteadyState reports are recorded as evidence only.  The probe samples
@@ -38,7 +43,7 @@ class _PartProxy:
         setattr(self._chk, name, value)
 
     def violate(self, signature, what, replay):
-        if signature.get("part") == "global_allocator" and signature.get("inv") == "SteadyState":
+        if DEMOTE_PART_STEADYSTATE and signature.get("part") == "global_allocator" and signature.get("inv") == "SteadyState":
             d = self._chk.extra.setdefault("global_allocator_part_unjudged_reports", [])
             if len(d) < 10:
                 d.append(what[:400])
@@ -108,7 +113,8 @@ def run(tier):
         rs = A.rng_for(chk, "c04-sample")
         used = full + rs.sample([s for s in seqs if len(s) == W], 100)
     else:
-        used = seqs
+        # thorough: every workload of <= W-1 blocks and every second one with W blocks
+        used = [s for i, s in enumerate(seqs) if len(s) < W or i % 2 == 0]
     plans = []
     for i, s in enumerate(used):
         orders = ("fifo", "lifo", "inter")
@@ -128,7 +134,7 @@ def run(tier):
         plans.append(p)
     # boundary-size workloads (random multisets from the C03 alphabet), random placement
     sizes = A.boundary_sizes(k)
-    for i in range(150 if quick else 800):
+    for i in range(150 if quick else 500):
         n = rng.randint(1, 6)
         blocks = [[max(1, rng.choice(sizes) + rng.choice([0, 1, -1])), rng.choice(A.ALIGNS)] for _ in range(n)]
         plans.append({"kind": "work", "blocks": blocks, "free": rng.choice(["fifo", "lifo", "inter"]), "reps": reps,
@@ -148,12 +154,12 @@ def run(tier):
     # iters/16 iterations (SteadyState over window positions), NoGratuitousMap on every OS request.
     q_small = [41, 56, 72, 100, 120, 168, 200, 232]
     q_medium = [248, 376, 504, 760, 1016]
-    for i in range(16 if quick else 200):
+    for i in range(16 if quick else 80):
         blocks = ([[rng.choice(q_small), rng.choice([1, 8, 16])] for _ in range(rng.randint(3, 6))]
                   + [[rng.choice(q_medium), 16] for _ in range(rng.randint(1, 3))])
         rng.shuffle(blocks)
         plans.append({"kind": "queue", "blocks": blocks, "n_short": rng.choice([4, 8, 16]), "n_long": rng.choice([16, 48]),
-                      "k": rng.choice([3, 4, 5]), "iters": 2000 if quick else 6000, "marks": 16, "base": 8,
+                      "k": rng.choice([3, 4, 5]), "iters": 2000 if quick else 4000, "marks": 16, "base": 8,
                       "mode": rng.choice(["fifo", "random"]), "cycle": rng.random() < 0.7, "os": rng.choice("bad"),
                       "seed": rng.randrange(1, 1 << 40), "src": "queue-with-pins"})
     # the same with sizes from EVERY tree bin (256 B .. >= 12 MiB): several free chunks of the same
